@@ -1,5 +1,6 @@
 import PyecoreModel.Driver.OSetProto
 import PyecoreModel.Driver.StoreProto
+import PyecoreModel.Driver.SlotProto
 /-!
 Line-protocol driver over the executable model (`Model/*`, no Mathlib ⇒ links natively).
 `driver <protocol>` reads one operation per line on stdin and prints one record per line.
@@ -18,5 +19,6 @@ def main (args : List String) : IO UInt32 := do
   let stdin ← IO.getStdin
   match args with
   | ["oset"] => loop stdin Py.OSetProto.step Py.OSetProto.init; return 0
+  | ["slot"] => loop stdin Py.SlotProto.step Py.SlotProto.init; return 0
   | ["store"] => loop stdin Store.Proto.step Store.Proto.init; return 0
   | _ => IO.eprintln "usage: driver <oset|store>"; return 2
